@@ -31,7 +31,7 @@ from vf.ref import chemkin_inp as CK
 from vf.ref import units as U
 
 ID = 'C06'
-N = {'quick': 1000, 'thorough': 100000}
+N = {'quick': 2500, 'thorough': 100000}
 NT_RULE = ('case = random well-formed mechanism (1-3 CatSites, 2-30 Nasa species G/S/bulk, 1-40 '
            'ChemkinReactions of kinds gas/ads/ads_plain/ads_diss/des/surf/diff, with/without TS, '
            'stoichiometry 1-3) + 1-8 condition runs + writer options (act/ads method, unit, T, P, formats, '
